@@ -17,7 +17,7 @@ VERIF = os.path.dirname(os.path.dirname(os.path.abspath(__file__)))
 REPO = os.environ.get("VERIF_REPO", "/repo")
 COQ = os.path.join(VERIF, "coq")
 THEORIES = os.path.join(COQ, "theories")
-FACTS = os.path.join(THEORIES, "Gen", "Facts.v")
+FACTS = os.path.join(THEORIES, "Gen")
 PY = "/venv/bin/python"
 NPROC = os.cpu_count() or 8
 
@@ -88,8 +88,6 @@ def build(targets=None, timeout=1500):
         fcntl.flock(lk, fcntl.LOCK_EX)
         regenerate_facts()
         files = all_v_files()
-        if os.path.relpath(FACTS, COQ) not in files:
-            files.append(os.path.relpath(FACTS, COQ))
         proj = "-Q theories MM\n" + COQ_HEADER_FLAGS + "\n" + "\n".join(sorted(files)) + "\n"
         pj = os.path.join(COQ, "_CoqProject")
         old = open(pj).read() if os.path.exists(pj) else None
